@@ -85,7 +85,7 @@ CLAIMS["C07"] = {
     "design_ref": "DESIGN.md section 4 C07",
     "note": "Trusted: symgo, z3, the regexp and ParseFloat models. Bounded input lengths (2-4 bytes quick, 3-6 thorough depending on the parser).",
 }
-H("C07", "css/parser", "VxH_C07_tokenize", reach=["tokenized"], bounds="Tokenize on every byte string of length 0..2 (thorough 0..3), skipComments symbolic", thorough={"shards": 12, "time": "2400s", "maxpaths": 4000000, "sharddepth": 26})
+H("C07", "css/parser", "VxH_C07_tokenize", reach=["tokenized"], bounds="Tokenize on every byte string of length 0..2 (thorough 0..3), skipComments symbolic", thorough={"shards": 12, "time": "2400s", "maxpaths": 4000000, "sharddepth": 8})
 
 # ---- C20 serialisation round trip ----
 ASSUMPTIONS["C20"] = [
@@ -99,6 +99,24 @@ CLAIMS["C20"] = {
 }
 H("C20", "css/parser", "VxH_C20_ident", reach=["reparsed"], bounds="ident / at-keyword / id-hash / function name of 1..3 bytes (thorough 4), valid UTF-8, no NUL")
 H("C20", "css/parser", "VxH_C20_string", reach=["reparsed"], bounds="string / url value of 0..3 bytes (thorough 4), valid UTF-8, no NUL")
-H("C20", "css/parser", "VxH_C20_source", reach=["reparsed", "parse-error"], bounds="valid UTF-8 source text of 0..3 bytes (thorough 4)", thorough={"shards": 12, "time": "2400s", "maxpaths": 4000000, "sharddepth": 26})
-H("C20", "css/parser", "VxH_C20_pairs", reach=["reparsed", "not-single-tokens"], bounds="two adjacent tokens, each tokenized from its own valid UTF-8 source of 1..2 bytes (quick: not both of 2 bytes)", quick={"shards": 8, "time": "400s", "sharddepth": 22}, thorough={"shards": 12, "time": "2400s", "maxpaths": 4000000, "sharddepth": 26})
+H("C20", "css/parser", "VxH_C20_source", reach=["reparsed", "parse-error"], bounds="valid UTF-8 source text of 0..3 bytes (thorough 4)", thorough={"shards": 12, "time": "2400s", "maxpaths": 4000000, "sharddepth": 8})
+H("C20", "css/parser", "VxH_C20_pairs", reach=["reparsed", "not-single-tokens"], bounds="two adjacent tokens, each tokenized from its own valid UTF-8 source of 1..2 bytes (quick: not both of 2 bytes)", quick={"shards": 8, "time": "400s", "sharddepth": 6}, thorough={"shards": 12, "time": "2400s", "maxpaths": 4000000, "sharddepth": 8})
 H("C20", "css/parser", "VxH_C20_unit", reach=["reparsed"], bounds="dimension 1<unit> / 1.5<unit>, unit of 1..2 bytes (thorough 3), valid UTF-8, no NUL")
+
+# ---- C06 CSS Syntax ----
+ASSUMPTIONS["C06"] = [
+    "claim assembled from predicate-level differentials against CSS Syntax Level 3 (identifier start, numbers, escapes, url) on symbolic bytes, plus compositional error-recovery laws on symbolic token lists; inputs longer than the stated bounds are outside the claim",
+    "source text is assumed to be valid UTF-8 where stated (CSS Syntax works on decoded code points)",
+]
+CLAIMS["C06"] = {
+    "text": "The solver shows, for all inputs within the bounds, that the tokenizer's identifier-start / number / escape / url decisions equal independent oracles written from CSS Syntax Level 3, and that declaration-list, block-contents and rule-list parsing are compositional at ';' and at a rule's {} block (a malformed construct consumes exactly its own tokens).",
+    "design_ref": "DESIGN.md section 4 C06",
+    "note": "Trusted: symgo, z3, regexp model. Token lists of <=2+1+2 tokens (thorough 3+1+3) over 9 token kinds; byte strings of <=3-5 bytes.",
+}
+H("C06", "css/parser", "VxH_C06_compose_semicolon", reach=["blocks-contents", "declaration-list"], bounds="token lists A, B of 0..2 tokens (thorough 3) over 9 kinds: parse(A ; B) = parse(A ;) ++ parse(B)", quick={"shards": 8, "sharddepth": 5}, thorough={"shards": 12, "sharddepth": 6, "time": "2400s", "maxpaths": 8000000})
+H("C06", "css/parser", "VxH_C06_compose_rules", reach=["rules"], bounds="prelude and rest of 0..2 tokens (thorough 3): parse(prelude {..} rest) = parse(prelude {..}) ++ parse(rest), rule list and stylesheet", quick={"shards": 8, "sharddepth": 5}, thorough={"shards": 12, "sharddepth": 6, "time": "2400s", "maxpaths": 8000000})
+H("C06", "css/parser", "VxH_C06_important", reach=["declaration"], bounds="value of 0..2 tokens followed by ! [ws] important|IMPORTANT|ImPortant|importan [ws]")
+H("C06", "css/parser", "VxH_C06_identstart", reach=["decided"], bounds="valid UTF-8 preprocessed text of 1..3 bytes (thorough 4)")
+H("C06", "css/parser", "VxH_C06_number", reach=["number", "not-a-number"], bounds="valid UTF-8 preprocessed text of 1..3 bytes (thorough 4)", quick={"shards": 4, "sharddepth": 6}, thorough={"shards": 12, "sharddepth": 8, "time": "2400s", "maxpaths": 8000000})
+H("C06", "css/parser", "VxH_C06_escape", reach=["escape", "not-an-escape"], bounds="backslash followed by 0..3 bytes (thorough 6) of valid UTF-8 preprocessed text", quick={"shards": 8, "sharddepth": 6}, thorough={"shards": 12, "sharddepth": 8, "time": "2400s", "maxpaths": 8000000})
+H("C06", "css/parser", "VxH_C06_badurl", reach=["tokenized"], bounds="'url(a b' followed by 0..4 bytes (thorough 5) of valid UTF-8 preprocessed text", quick={"shards": 4}, thorough={"shards": 12, "time": "2400s", "maxpaths": 8000000})
